@@ -328,6 +328,81 @@ def markov_shards(ctx, cases, dist):
     return shards, members
 
 
+def history_cases(ctx, sc, dist, steps=None):
+    """Histories on ONE ruleset directory (impl_next.History): a ruleset is loaded, then its files change in place with the uuid
+    kept (a terminal file re-weighted, values added / removed, a base structure dropped, the real edit_rules), or it is trained
+    again under the same name, or all_lower is toggled, and it is loaded again in this process.  After EVERY load, against the files
+    AS THEY ARE NOW: the group-probability oracle, and for each of the first pre-terminals the lines of create_guesses = the
+    product of the groups the FILES define (consecutive lines of equal probability) = the product of the loaded groups.
+    steps: the recorded steps of a replay (one history)."""
+    import time
+    vio, t0 = [], time.time()
+    flagsets = [(False, False, "Grammar"), (False, True, "Grammar")]
+    kinds = ["reweight-terminal"] * 3 + ["add-value"] * 2 + ["remove-value"] * 2 + ["retrain"] * 2 + ["flags", "same", "drop-base", "edit_rules"]
+
+    def file_product(now, pt, scs):
+        choices, i = [], 0
+        while i < len(pt):
+            t, ix = pt[i]
+            fg = impl_next.file_groups(now, t, scs)
+            if fg is None or ix >= len(fg):
+                return "no group %d in the file of %s" % (ix, t)
+            if t[0] == "A" and i + 1 < len(pt) and pt[i + 1][0][0] == "C":
+                fm = impl_next.file_groups(now, pt[i + 1][0], scs)
+                if fm is None or pt[i + 1][1] >= len(fm):
+                    return "no group %d in the file of %s" % (pt[i + 1][1], pt[i + 1][0])
+                choices.append(["".join(c if mc == "L" else c.upper() for c, mc in zip(w, m)) for w in fg[ix][1] for m in fm[pt[i + 1][1]][1]])
+                i += 2
+            else:
+                choices.append(list(fg[ix][1]))
+                i += 1
+        return ["".join(x) for x in itertools.product(*choices)]
+    dist["history_rule"] = ("histories of 2-3 loads of ONE ruleset directory in this process (terminal files re-weighted / values added / removed in "
+                            "place with the uuid kept, re-trained under the same name, all_lower toggled, base structure dropped, real edit_rules): after "
+                            "every load the group-probability oracle and create_guesses = product of the groups of the files as they are then")
+    for hno in range(1 if steps is not None else ctx.scale(20, 400)):
+        if steps is None:
+            hg = impl_next.HistoryGen(ctx.rng, rulesets.gen_ruleset(ctx.rng, max_bases=3, max_len=4), flagsets[ctx.rng.random() < 0.2],
+                                      kinds=kinds, flag_choices=flagsets, gen=lambda name: rulesets.gen_ruleset(ctx.rng, max_bases=3, max_len=4, name=name))
+        h = impl_next.History(sc)
+        n = len(steps) if steps is not None else ctx.rng.choice([2, 3, 3])
+        done, bad = [], False
+        dist["histories"] = dist.get("histories", 0) + 1
+        for k in range(n):
+            st = steps[k] if steps is not None else (hg.first() if k == 0 else hg.next(h.current))
+            done.append(st)
+            now = h.write(st)
+            scs = bool(st.get("skip_case"))
+            replay = {"ruleset": now, "skip_case": scs, "history": list(done), "step": k}
+            where = "step %d (%s) of a history on one ruleset directory: " % (k, st.get("edit"))
+            dist["history_loads"] = dist.get("history_loads", 0) + 1
+            try:
+                g = h.load(st)
+            except Exception:
+                continue
+            v = group_prob_oracle(g, now)
+            items, _, _, _ = impl_next.full_stream(g, cap=ctx.scale(40, 120), check_heap=False)
+            for it in items:
+                pt = it["pt"]
+                if v or any(t[0] == "M" for t, _ in pt):
+                    continue
+                dist["history_preterminals"] = dist.get("history_preterminals", 0) + 1
+                res = collect(g, pt, None)
+                v += oracle(g, pt, [(None, res)], now["files"], dict(replay, pt=pt))
+                want = file_product(now, pt, scs)
+                if not v and res is not None and res[0] != want:
+                    v.append({"sig": "C04:product:file", "what": "the guesses of %r are %r..., the groups of the ruleset files as they are now give %r..."
+                              % (pt, res[0][:4], want if isinstance(want, str) else want[:4]), "replay": dict(replay, pt=pt)})
+            for x in v:
+                x["what"] = where + x["what"]
+                x["replay"] = dict(replay, **{kk: vv for kk, vv in x["replay"].items() if kk in ("pt", "limit")})
+            vio += v
+            if v:
+                break
+    dist["history_seconds"] = round(time.time() - t0, 1)
+    return vio
+
+
 def slots_literal(g, pt):
     out = []
     for t, ix in pt:
@@ -460,6 +535,7 @@ def run(ctx):
     mshards, mmembers = markov_shards(ctx, mcases, mdist)
     dist.update(mdist)
     shards += mshards
+    vio += history_cases(ctx, sc, dist)
     corr = []
     for name, idx, log in common.run_case_shards("C04", shards):
         if name[0] == "m":
@@ -526,6 +602,8 @@ def replay(ctx, data):
         levels = list(g.grammar["M"][pt[0][1]]["values"])
         base = {k: v for k, v in inp.items() if k != "limit"}
         return markov_oracle(buckets, levels, l, collect_any(g, pt, l), base)
+    if inp.get("history"):
+        return history_cases(ctx, sc, {}, steps=inp["history"])
     g = impl_next.load_grammar(inp["ruleset"], sc, False, inp.get("skip_case", False), "Grammar")
     if "pt" not in inp:
         return group_prob_oracle(g, inp["ruleset"])
